@@ -35,7 +35,7 @@ theorem rc4_involution (key data : Bytes) :
   · rw [if_neg h, rc4Encrypt_panic h]; rfl
 
 /-- the same, as an implication on results -/
-theorem rc4_involution' (key data c : Bytes) (h : rc4Encrypt key data = .ok c) : rc4Encrypt key c = .ok data := by
+theorem rc4_involution_result (key data c : Bytes) (h : rc4Encrypt key data = .ok c) : rc4Encrypt key c = .ok data := by
   by_cases hv : validKey key
   · rw [rc4Encrypt_eq hv] at h; cases h; rw [rc4Encrypt_eq hv, rc4_rc4]
   · rw [rc4Encrypt_panic hv] at h; cases h
@@ -681,6 +681,156 @@ theorem encrypt_dict_object_untouched (P : Prims) (d : Decoder) (id gen : Nat) (
       (by simp [EncKvs]) (fun kv kvs ihkv ihkvs => by cases kv; simp [EncKvs]; exact ⟨ihkv, ihkvs⟩)
       (fun k v ih => ih) v
   exact decryptVal_enc d id gen hR v v (hrefl v)
+
+/-! ## The variants: what `V` / `Length` / `CF` select -/
+
+/-- RC4 40-bit (V 1): always 5 bytes, whatever `/Length` says -/
+theorem select_v1 (d : CryptDict) (h : d.v = 1) : selectMethod d = .ok (8 * 5, .v2) := by
+  simp [selectMethod, h]
+
+/-- RC4 40..128-bit (V 2): `/Length` -/
+theorem select_v2 (d : CryptDict) (n : Nat) (h : d.v = 2) (hb : d.bits = 8 * n) : selectMethod d = .ok (8 * n, .v2) := by
+  simp [selectMethod, h, hb]
+
+/-- crypt-filter RC4 (V 4, `/CFM /V2`): the crypt filter's `/Length` (bytes) or else the dictionary's (bits) -/
+theorem select_v4_rc4 (d : CryptDict) (name : Bytes) (f : CryptFilter) (n : Nat) (h : d.v = 4) (hs : d.stmF = some name)
+    (hf : d.cf.lookup name = some f) (hm : f.method = .v2)
+    (hl : f.length = some n ∧ n < 2 ^ 29 ∨ f.length = none ∧ d.bits = 8 * n) : selectMethod d = .ok (8 * n, .v2) := by
+  rcases hl with ⟨hl, hn⟩ | ⟨hl, hb⟩
+  · have : 8 * n < 4294967296 := by omega
+    simp [selectMethod, h, hs, hf, hm, hl, this]
+  · simp [selectMethod, h, hs, hf, hm, hl, hb]
+
+/-- crypt-filter AES-128 (V 4, `/CFM /AESV2`): 16 bytes, with or without any `/Length` (after the repair) -/
+theorem select_v4_aes (d : CryptDict) (name : Bytes) (f : CryptFilter) (h : d.v = 4) (hs : d.stmF = some name)
+    (hf : d.cf.lookup name = some f) (hm : f.method = .aesv2) : selectMethod d = .ok (8 * 16, .aesv2) := by
+  simp [selectMethod, h, hs, hf, hm]
+
+/-- AES-256 (V 5, `/CFM /AESV3`) -/
+theorem select_v5 (d : CryptDict) (name : Bytes) (f : CryptFilter) (h : d.v = 5) (hs : d.stmF = some name)
+    (hf : d.cf.lookup name = some f) (hm : f.method = .aesv3) (hl : f.length = none ∨ f.length = some 32) :
+    ∃ kb, selectMethod d = .ok (kb, .aesv3) := by
+  rcases hl with hl | hl <;> simp [selectMethod, h, hs, hf, hm, hl]
+
+/-! ## Non-vacuity: the hypotheses are satisfiable and the statements say something
+
+Concrete evaluation of RC4 inside the kernel costs about ten seconds per key schedule, so only the two
+test vectors above are evaluated; the examples below *apply* the theorems to concrete dictionaries, which
+shows that their hypotheses can be met (by toy primitives of the right sizes, since the real MD5 / SHA /
+AES are not part of the development). -/
+
+namespace Toy
+
+/-- toy primitives with the right sizes (a sum-based "hash", byte reversal as block cipher) -/
+def mix (n : Nat) (x : Bytes) : Bytes :=
+  (List.range n).map fun i => UInt8.ofNat (x.foldl (fun a b => (a * 31 + b.toNat + i) % 65521) (7 * i + 1))
+
+def H : Hashes :=
+  { md5 := mix 16, sha256 := mix 32, sha384 := mix 48, sha512 := mix 64,
+    aesE := fun _ b => b.reverse, aesD := fun _ b => b.reverse, prep := some }
+
+def P : Prims :=
+  { md5 := fun x => .ok (H.md5 x), sha256 := fun x => .ok (H.sha256 x), sha384 := fun x => .ok (H.sha384 x),
+    sha512 := fun x => .ok (H.sha512 x), aesEnc := fun k b => .ok (H.aesE k b), aesDec := fun k b => .ok (H.aesD k b),
+    saslprep := fun x => .ok x }
+
+theorem agree : PrimsAgree P H := ⟨fun _ => rfl, fun _ => rfl, fun _ => rfl, fun _ => rfl, fun _ _ => rfl, fun _ _ => rfl, fun _ => rfl⟩
+
+theorem wf : H.WF :=
+  ⟨fun _ => by simp [H, mix], fun _ => by simp [H, mix], fun _ => by simp [H, mix], fun _ => by simp [H, mix],
+   fun _ b h => by simp [H, h], fun _ b _ _ => by simp [H]⟩
+
+def userPw : Bytes := [0x75, 0x73, 0x65, 0x72]
+def ownerPw : Bytes := [0x6f, 0x77, 0x6e, 0x65, 0x72]
+def id0 : Bytes := [1, 2, 3, 4]
+
+/-- a revision 3 dictionary (V 2, 56-bit key) as a conforming writer makes it -/
+def dict3 (opw : Bytes) : CryptDict :=
+  let o := makeO H 3 7 opw userPw
+  { o := o, u := makeU H 3 (alg2Key H 3 7 o (-44) id0 true userPw) id0 (List.replicate 16 0xAA),
+    r := 3, p := -44, v := 2, bits := 56, cf := [], stmF := none, encryptMetadata := true, oe := none, ue := none }
+
+theorem written3 (opw : Bytes) : WrittenRc4 H (dict3 opw) id0 7 userPw opw (List.replicate 16 0xAA) :=
+  ⟨by simp [dict3], by simp [dict3]⟩
+
+/-- the hypotheses of `user_password_accepted_rc4` hold for a concrete dictionary, passwords and id -/
+example : ∃ dec, fromPassword P (dict3 ownerPw) id0 userPw = .ok (.decoder dec) ∧ dec.method = .v2 ∧ dec.encryptMetadata = true ∧
+    dec.keyOf = .ok (alg2Key H 3 7 (dict3 ownerPw).o (-44) id0 true userPw) :=
+  user_password_accepted_rc4 agree wf (dict3 ownerPw) id0 7 .v2 (select_v2 _ 7 rfl rfl) (by decide) (by decide) userPw ownerPw _ (written3 _)
+
+/-- … and of `owner_password_accepted_rc4` (here with the owner password equal to the user password — "no
+    owner password" — where the collision hypothesis holds by reflexivity) -/
+example : ∃ dec, fromPassword P (dict3 userPw) id0 userPw = .ok (.decoder dec) ∧ dec.method = .v2 ∧ dec.encryptMetadata = true ∧
+    dec.keyOf = .ok (alg2Key H 3 7 (dict3 userPw).o (-44) id0 true userPw) :=
+  owner_password_accepted_rc4 agree wf (dict3 userPw) id0 7 .v2 (select_v2 _ 7 rfl rfl) (by decide) (by decide) userPw userPw _ (written3 _)
+    (fun _ => rfl)
+
+/-- a dictionary no password opens (`/U` of the wrong size): the hypothesis of `wrong_password_rejected_rc4`
+    is satisfiable, and the answer is `InvalidPassword` for *every* password -/
+def dictNoU : CryptDict :=
+  { o := List.replicate 32 1, u := [], r := 2, p := -4, v := 1, bits := 40, cf := [], stmF := none,
+    encryptMetadata := true, oe := none, ue := none }
+
+example (pw : Bytes) : fromPassword P dictNoU id0 pw = .ok .invalidPassword := by
+  refine wrong_password_rejected_rc4 agree wf dictNoU id0 pw 5 .v2 (select_v1 _ rfl) (by decide) (by decide) ?_
+  have hno : ∀ k : Bytes, ¬ UCheck H dictNoU.r dictNoU.u id0 k := by
+    intro k h
+    have h : UCheck H 2 [] id0 k := h
+    unfold UCheck at h
+    simp only [if_true, makeU] at h
+    have := congrArg List.length h
+    rw [rc4_length] at this
+    simp [PADDING_length] at this
+  unfold authenticate
+  rw [authUser_eq, if_neg (hno _)]
+  simp only [authOwner]
+  rw [authUser_eq, if_neg (hno _)]
+
+/-- decrypt ∘ encrypt: the hypotheses of the three theorems are met by concrete decoders -/
+example (id gen : Nat) (data : Bytes) :
+    decrypt P (Decoder.mk' ([1, 2, 3, 4, 5, 6, 7] ++ List.replicate 9 0) 7 .v2 true) id gen
+      (encryptObject H .rc4 [1, 2, 3, 4, 5, 6, 7] id gen [] data) = .ok data :=
+  decrypt_encrypt_v2 agree wf _ _ rfl rfl id gen [] data (by simp [Exempt, Decoder.mk'])
+
+example (id gen : Nat) (data : Bytes) :
+    decrypt P (Decoder.mk' (List.replicate 16 9) 16 .aesv2 true) id gen
+      (encryptObject H .aes128 (List.replicate 16 9) id gen (List.replicate 16 3) data) = .ok data :=
+  decrypt_encrypt_aesv2 agree wf _ _ rfl rfl rfl id gen _ data rfl (by simp [Exempt, Decoder.mk'])
+
+example (id gen : Nat) (data : Bytes) :
+    decrypt P (Decoder.mk' (List.replicate 32 9) 32 .aesv3 false) id gen
+      (encryptObject H .aes256 (List.replicate 32 9) id gen (List.replicate 16 3) data) = .ok data :=
+  decrypt_encrypt_aesv3 agree wf _ _ rfl rfl rfl id gen _ data rfl (by simp [Exempt, Decoder.mk'])
+
+/-- block-aligned data gets a whole block of padding: 16 bytes of plaintext are stored as 16 + 32 bytes -/
+example : (encryptObject H .aes128 (List.replicate 16 9) 5 0 (List.replicate 16 3) (List.replicate 16 0x41)).length = 48 := by
+  decide +kernel
+
+/-- revisions 5 / 6: a dictionary written with Algorithm 8 for the prepared password, salts and file key -/
+def dict6 : CryptDict :=
+  { o := List.replicate 48 7, u := makeU56 H 6 userPw (List.replicate 8 1) (List.replicate 8 2), r := 6, p := -4, v := 5, bits := 256,
+    cf := [([0x53], { method := .aesv3, length := none })], stmF := some [0x53], encryptMetadata := true,
+    oe := some (List.replicate 32 5), ue := some (makeUE H 6 userPw (List.replicate 8 2) (List.replicate 32 0x4b)) }
+
+example : fromPassword P dict6 id0 userPw = .ok (.decoder (Decoder.mk' (List.replicate 32 0x4b) 32 .aesv3 true)) :=
+  user_password_accepted_56 agree wf dict6 id0 userPw 256 .aesv3 (by simp [selectMethod, dict6]) (Or.inr rfl) (by simp [dict6]) _ rfl (by simp)
+    userPw (List.replicate 8 1) (List.replicate 8 2) (List.replicate 32 0x4b) (by simp [prepPw, H, userPw])
+    ⟨rfl, rfl, by simp, by simp, by simp⟩
+
+end Toy
+
+/-! ## The defects repaired on the way, as facts about the *old* code
+
+D17: `Decoder::decrypt` passed `self.key()` — at most 16 bytes — to AES-256. With that slice the AESV3 arm
+is `cbcDecryptPkcs7 P 32 (d.key.take 16) …`, which is `.err` for every input: -/
+theorem d17_old_code_always_fails (P : Prims) (key iv ct : Bytes) :
+    cbcDecryptPkcs7 P 32 (key.take 16) iv ct = .err := by
+  unfold cbcDecryptPkcs7
+  rw [if_pos (Or.inl (by rw [List.length_take]; omega))]
+
+/-- D18: a key size of 0 reached `Rc4::new` with an empty key, which asserts; the model of the repaired
+    code answers `.err` before (`fromPasswordRc4`), here is the assertion: -/
+example : rc4Encrypt [] PADDING = .panic := by decide +kernel
 
 end Crypt
 
